@@ -488,19 +488,39 @@ def infer_table(t):
         nk = infer(a[4], scope)
         return {'row': ('Struct', tuple(fields(nk, k) + fields(e, k))), 'glob': c['glob'], 'key': [n for n, _ in fields(nk, k)]}
     if k == 'TableJoin':
-        # (TableJoin type joinKey left right): left key ++ left value ++ right value; key = left key ++ rest of right key
+        # (TableJoin type joinKey left right); row field ORDER and key as TableJoin.typ in TableIR.scala defines them
+        rule = _join_rules()['TableJoin']
         jk = int(a[1])
         l, r = infer_table(a[2]), infer_table(a[3])
         lrow, rrow = dict(l['row'][1]), dict(r['row'][1])
-        if [lrow[x] for x in l['key'][:jk]] != [rrow[x] for x in r['key'][:jk]]:
-            raise IllTyped('TableJoin: join key types differ')
-        lval = [(n, t_) for n, t_ in l['row'][1] if n not in l['key']]
-        rval = [(n, t_) for n, t_ in r['row'][1] if n not in r['key'][:jk]]
-        if set(n for n, _ in l['row'][1]) & set(n for n, _ in rval):
-            raise IllTyped('TableJoin: field name clash')
-        row = [(n, lrow[n]) for n in l['key']] + lval + rval
-        return {'row': ('Struct', tuple(row)), 'glob': ('Struct', tuple(fields(l['glob'], k) + fields(r['glob'], k))),
-                'key': l['key'] + r['key'][jk:]}
+        lkey, rkey = l['key'][:jk], r['key'][:jk]
+        if len(lkey) != jk or len(rkey) != jk or [lrow[x] for x in lkey] != [rrow[x] for x in rkey]:
+            raise IllTyped('TableJoin: join key types differ', 'table-join-key')
+        parts = {'leftKeyType': [(n, lrow[n]) for n in lkey],
+                 'leftValueType': [(n, t_) for n, t_ in l['row'][1] if n not in lkey],
+                 'rightValueType': [(n, t_) for n, t_ in r['row'][1] if n not in rkey],
+                 'left.typ.globalType': fields(l['glob'], k), 'right.typ.globalType': fields(r['glob'], k),
+                 'left.typ.key': list(l['key']), 'right.typ.key.drop(joinKey)': list(r['key'][jk:])}
+        if set(n for n, _ in parts['leftValueType']) & set(n for n, _ in parts['rightValueType']):
+            raise IllTyped('TableJoin: left and right value fields clash', 'table-join-name-clash')
+        row = [f for nm in rule['row'] for f in parts[nm]]
+        if len(set(n for n, _ in row)) != len(row):
+            raise IllTyped('TableJoin: duplicate field', 'table-join-name-clash')
+        return {'row': ('Struct', tuple(row)), 'glob': ('Struct', tuple(f for nm in rule['glob'] for f in parts[nm])),
+                'key': [x for nm in rule['key'] for x in parts[nm]]}
+    if k == 'TableRename':
+        # (TableRename (old row names) (new row names) (old global names) (new global names) child)
+        import json as _json
+        c = infer_table(a[4])
+        rm = dict(zip([_json.loads(x) for x in a[0]], [_json.loads(x) for x in a[1]]))
+        gm = dict(zip([_json.loads(x) for x in a[2]], [_json.loads(x) for x in a[3]]))
+        if any(x not in dict(c['row'][1]) for x in rm) or any(x not in dict(c['glob'][1]) for x in gm):
+            raise IllTyped('TableRename: unknown field', 'rename-unknown-field')
+        row = [(rm.get(n, n), t_) for n, t_ in c['row'][1]]
+        glob = [(gm.get(n, n), t_) for n, t_ in c['glob'][1]]
+        if len(set(n for n, _ in row)) != len(row) or len(set(n for n, _ in glob)) != len(glob):
+            raise IllTyped('TableRename: duplicate field name', 'rename-duplicate')
+        return {'row': ('Struct', tuple(row)), 'glob': ('Struct', tuple(glob)), 'key': [rm.get(n, n) for n in c['key']]}
     if k == 'MatrixRowsTable':
         m = infer_matrix(a[0])
         return {'row': m['row'], 'glob': m['glob'], 'key': m['rkey']}
@@ -577,6 +597,42 @@ def _join_rules():
     if not m or 'table.typ.valueType' not in m.group(2):
         raise HarnessError('MatrixAnnotateColsTable.typ: unexpected definition')
     _JOIN['MatrixAnnotateColsTable'] = {'mode': m.group(1)}
+    # TableJoin.typ: order of the row / global / key concatenations
+    b = block(ttxt, 'TableJoin')
+    for pat in (r'val leftKey = left\.typ\.key\.take\(joinKey\)', r'val rightKey = right\.typ\.key\.take\(joinKey\)',
+                r'val leftKeyType = TableType\.keyType\(leftRowType, leftKey\)',
+                r'val leftValueType = TableType\.valueType\(leftRowType, leftKey\)',
+                r'val rightValueType = TableType\.valueType\(rightRowType, rightKey\)',
+                r'TableType\(newRowType, newKey, newGlobalType\)'):
+        if not re.search(pat, b):
+            raise HarnessError(f'TableJoin.typ: definition changed ({pat})')
+
+    def concat(txt, var):
+        m_ = re.search(r'val %s = (.*?)(?= val | TableType\(| if \(|$)' % var, txt)
+        if not m_:
+            raise HarnessError(f'{var}: definition not found')
+        return [x.strip() for x in m_.group(1).split('++')]
+    _JOIN['TableJoin'] = {'row': concat(b, 'newRowType'), 'glob': concat(b, 'newGlobalType'), 'key': concat(b, 'newKey')}
+    known = {'leftKeyType', 'leftValueType', 'rightValueType', 'left.typ.globalType', 'right.typ.globalType', 'left.typ.key',
+             'right.typ.key.drop(joinKey)'}
+    if any(x not in known for v in _JOIN['TableJoin'].values() for x in v):
+        raise HarnessError(f'TableJoin.typ: unexpected concatenation {_JOIN["TableJoin"]}')
+    ktxt = loader.read('hail/hail/src/is/hail/types/virtual/TableType.scala')
+    if not re.search(r'def keyType\(ts: TStruct, key: IndexedSeq\[String\]\): TStruct =\s*ts\.typeAfterSelect\(key\.map\(ts\.fieldIdx\)\)', ktxt) \
+            or not re.search(r'def valueType\(ts: TStruct, key: IndexedSeq\[String\]\): TStruct =\s*ts\.filterSet\(key\.toSet, include = false\)\._1', ktxt):
+        raise HarnessError('TableType.keyType / valueType: definition changed')
+    # MatrixUnionCols.typ: row = concatenation order of newRowType; everything else from the left child
+    b = block(mtxt, 'MatrixUnionCols')
+    for pat in (r'val leftKeyType = left\.typ\.rowKeyStruct', r'val leftValueType = left\.typ\.rowValueStruct',
+                r'val rightValueType = right\.typ\.rowValueStruct', r'left\.typ\.copy\(rowType = newRowType\)'):
+        if not re.search(pat, b):
+            raise HarnessError(f'MatrixUnionCols.typ: definition changed ({pat})')
+    m_ = re.search(r'\) (\w+(?: \+\+ \w+)+) \}', b)
+    if not m_:
+        raise HarnessError('MatrixUnionCols.newRowType: concatenation not found')
+    _JOIN['MatrixUnionCols'] = {'row': [x.strip() for x in m_.group(1).split('++')]}
+    if any(x not in ('leftKeyType', 'leftValueType', 'rightValueType') for x in _JOIN['MatrixUnionCols']['row']):
+        raise HarnessError(f'MatrixUnionCols.newRowType: unexpected concatenation {_JOIN["MatrixUnionCols"]}')
     _JOIN['src'] = (ttxt, mtxt)
     return _JOIN
 
@@ -659,6 +715,24 @@ def infer_matrix(t):
         if product and rule['product_array']:
             vt = ('Array', vt)
         return dict(c, row=_insert(c['row'], root, vt, rule['mode']))
+    if k == 'MatrixUnionCols':
+        rule = _join_rules()[k]
+        l, r = infer_matrix(a[1]), infer_matrix(a[2])
+        lrow, rrow = dict(l['row'][1]), dict(r['row'][1])
+        if [lrow[x] for x in l['rkey']] != [rrow[x] for x in r['rkey']]:
+            raise IllTyped('MatrixUnionCols: row key types differ', 'union-cols-key')
+        parts = {'leftKeyType': [(n, lrow[n]) for n in l['rkey']],
+                 'leftValueType': [(n, t_) for n, t_ in l['row'][1] if n not in l['rkey']],
+                 'rightValueType': [(n, t_) for n, t_ in r['row'][1] if n not in r['rkey']]}
+        row = [f for nm in rule['row'] for f in parts[nm]]
+        if len(set(n for n, _ in row)) != len(row):
+            raise IllTyped('MatrixUnionCols: left and right row value fields clash', 'union-cols-name-clash')
+        return dict(l, row=('Struct', tuple(row)))
+    if k == 'MatrixUnionRows':
+        cs = [infer_matrix(x) for x in a]
+        if any(c != cs[0] for c in cs):
+            raise IllTyped('MatrixUnionRows of different matrix types', 'union-rows-types')
+        return cs[0]
     if k == 'MatrixAnnotateColsTable':
         rule = _join_rules()[k]
         root = _json.loads(a[0])
@@ -681,7 +755,7 @@ STATS = {'expr_inferred': 0, 'expr_not_inferred': 0, 'table_inferred': 0, 'table
          'matrix_not_inferred': 0, 'join_nodes_inferred': 0, 'not_inferred_nodes': {}}
 
 
-_JOIN_RE = re.compile(r'\((?:TableLeftJoinRightDistinct|TableIntervalJoin|MatrixAnnotateRowsTable|MatrixAnnotateColsTable|TableJoin) ')
+_JOIN_RE = re.compile(r'\((?:TableLeftJoinRightDistinct|TableIntervalJoin|MatrixAnnotateRowsTable|MatrixAnnotateColsTable|TableJoin|MatrixUnionCols) ')
 
 
 def text_check(obj, env):
@@ -723,7 +797,11 @@ def text_check(obj, env):
         for what in front:
             if front[what] != mt[what]:
                 sh = (lambda x: x if isinstance(x, list) else show(x))
-                raise Violation('matrix-type-vs-ir-text', f'{what}: front end {sh(front[what])} but the IR text implies '
+                kind = 'matrix-type-vs-ir-text'
+                if what == 'row' and '(MatrixUnionCols ' in text and sorted(front['row'][1]) == sorted(mt['row'][1]):
+                    # same fields, different ORDER, below a MatrixUnionCols: its own finding class
+                    kind = 'matrix-row-field-order-after-union-cols'
+                raise Violation(kind, f'{what}: front end {sh(front[what])} but the IR text implies '
                                 f'{sh(mt[what])}: {text[:900]}')
         return
     text = str(obj._ir)
